@@ -436,3 +436,7 @@ impl std::fmt::Display for InvalidCss {
         }
     }
 }
+
+#[cfg(kani)]
+#[path = "/verif/kani/value.rs"]
+mod kani_verif;
